@@ -39,7 +39,7 @@ def fuzz_one(ctx, exe, target, runs, seed, workdir, corpus_root):
     env.update(ctx["asan_env"])
     env["ASAN_OPTIONS"] = "abort_on_error=1:detect_leaks=0:handle_abort=1:symbolize=1:allocator_may_return_null=1"
     env["FUZZ_TARGET"] = target
-    cmd = [exe, "-runs=%d" % runs, "-max_len=4096", "-timeout=25", "-rss_limit_mb=2560", "-malloc_limit_mb=1024",
+    cmd = [exe, "-runs=%d" % runs, "-max_len=4096", "-timeout=60", "-rss_limit_mb=2560", "-malloc_limit_mb=1024",
            "-dict=" + os.path.join(ctx["verif"], "fuzz", "dict.txt"), "-seed=%d" % seed, "-artifact_prefix=" + art,
            "-print_final_stats=1", "-verbosity=1", "-reload=0", corpus, seeds]
     log = os.path.join(workdir, "fuzz-%s.log" % target)
@@ -116,7 +116,7 @@ def run(ctx):
         acc.evaluations += total_exec
         acc.clause["libfuzzer.executions"] = total_exec
     return {"libfuzzer": {"runs_per_target_per_round": RUNS[tier], "rounds": ROUNDS[tier], "per_target": stats,
-                          "options": "-max_len=4096 -timeout=25 -rss_limit_mb=2560 -malloc_limit_mb=1024 -dict=fuzz/dict.txt",
+                          "options": "-max_len=4096 -timeout=60 -rss_limit_mb=2560 -malloc_limit_mb=1024 -dict=fuzz/dict.txt",
                           "build": "clang++-14 -fsanitize=fuzzer,address,undefined -fno-sanitize-recover=all"}}
 
 
